@@ -883,6 +883,9 @@ class Interp:
         return tuple(self._elts(e.elts, frame))
 
     def e_List(self, e, frame):
+        h = getattr(self, "list_literal", None)
+        if h is not None and not e.elts:  # `[]` as a ghost list (contract-supplied view of the accumulator)
+            return h(self)
         return list(self._elts(e.elts, frame))
 
     def _elts(self, elts, frame):
@@ -1024,7 +1027,7 @@ class Interp:
         for a in e.args:
             if isinstance(a, ast.Starred):
                 sv = self.deopt(self.eval(a.value, frame))
-                if isinstance(sv, (SSeq, MutSet, SSet)) and not (isinstance(sv, MutSet) and sv.val is None):
+                if (isinstance(sv, (SSeq, MutSet, SSet)) and not (isinstance(sv, MutSet) and sv.val is None)) or getattr(sv, "star_marker", False):
                     args.append(StarArgs(sv))   # symbolic-length star argument: handed over as one marker
                 else:
                     args.extend(_m.iter_concrete(self, sv))
